@@ -29,7 +29,8 @@ static COUNTER: AtomicU64 = AtomicU64::new(0);
 pub const SIG_NESTED_LIST: &str = "normalize-exception:list-of-lists-of-objects";
 pub const SIG_POINTER_ARGS: &str = "missing-data:client-pointer-selected-with-arguments";
 pub const SIG_EMPTY_LINKED: &str = "missing-data:linked-field-without-server-selections";
-pub const SIG_OMITTED_IN_OBJECT: &str = "missing-data:omitted-variable-inside-object-argument";
+pub const SIG_OMITTED_IN_OBJECT: &str = "missing-data:null-or-omitted-variable-inside-object-argument";
+pub const SIG_ENTITY_WITHOUT_ID: &str = "missing-data:entity-also-normalized-without-its-id";
 pub const SIG_DEFAULT_VALUE: &str = "missing-data:client-field-variable-default-value-not-applied-when-reading";
 
 /// Evidence samples chosen deterministically although cases run on parallel workers: per kind the
@@ -184,6 +185,32 @@ fn has_list_of_lists_of_objects(v: &Value) -> bool {
     }
 }
 
+/// Two objects of the response carry the same id: the same entity is reached along two paths.
+fn response_repeats_an_entity(v: &Value) -> bool {
+    fn ids(v: &Value, out: &mut Vec<String>) {
+        match v {
+            Value::Array(a) => a.iter().for_each(|x| ids(x, out)),
+            Value::Object(m) => {
+                if let Some(Value::String(id)) = m.get("id") {
+                    out.push(format!("{}:{id}", m.get("__typename").and_then(|t| t.as_str()).unwrap_or("")));
+                }
+                m.values().for_each(|x| ids(x, out));
+            }
+            _ => {}
+        }
+    }
+    let mut all = vec![];
+    ids(v, &mut all);
+    // objects at concrete positions carry no __typename: compare by id alone as well
+    let bare: Vec<&str> = all.iter().map(|s| s.rsplit(':').next().unwrap_or("")).collect();
+    (0..bare.len()).any(|i| bare[i + 1..].contains(&bare[i]))
+}
+
+/// `Type:parent.field.N` — the store id the runtime derives from the PATH for an object without id.
+fn innermost_root_is_path_based(message: &str) -> bool {
+    message.lines().last().is_some_and(|l| l.rsplit(" on root ").next().is_some_and(|root| root.contains(':') && root.contains('.')))
+}
+
 /// A Linked normalization node without selections: nothing is written for the object, so no
 /// store record comes into existence.
 fn has_linked_node_without_selections(nast: &Value) -> bool {
@@ -220,7 +247,13 @@ fn refine_signature(mut f: Fail, files: &Rendered, response: &Value, ep: &Entryp
         f.signature = SIG_POINTER_ARGS.into();
         return f;
     }
-    if f.signature.starts_with("missing-data:") && f.message.contains("\"null\"") && reader_stats(&ep.reader_ast).resolvers_omitting_a_variable_used_in_object > 0 {
+    if f.signature.starts_with("missing-data:") && innermost_root_is_path_based(&f.message) && response_repeats_an_entity(response) {
+        f.signature = SIG_ENTITY_WITHOUT_ID.into();
+        return f;
+    }
+    // the store key the reader failed on is that of an object-valued argument, and variables occur inside object values
+    let last_reason_has_object_key = f.message.lines().last().is_some_and(|l| l.contains("___{"));
+    if f.signature.starts_with("missing-data:") && last_reason_has_object_key && crate::artifacts::has_variable_inside_object(&ep.reader_ast) {
         f.signature = SIG_OMITTED_IN_OBJECT.into();
         return f;
     }
@@ -274,7 +307,7 @@ pub fn run_program(files: &Rendered, declared: &[String], rtape: &[u16], respons
             report.excluded(SIG_POINTER_ARGS);
             continue;
         }
-        if rs.resolvers_omitting_a_variable_used_in_object > 0 && known(SIG_OMITTED_IN_OBJECT) {
+        if crate::artifacts::has_variable_inside_object(&ep.reader_ast) && known(SIG_OMITTED_IN_OBJECT) {
             report.excluded(SIG_OMITTED_IN_OBJECT);
             continue;
         }
@@ -288,7 +321,7 @@ pub fn run_program(files: &Rendered, declared: &[String], rtape: &[u16], respons
         }
         for k in 0..responses {
             let tape = rotate(rtape, k + res.entrypoints * 31);
-            let (_, response, variables, stats) = match respgen::generate(&compiled.schema, &text, tape) {
+            let (_, response, variables, stats) = match respgen::generate(&compiled.schema, &text, tape, known(SIG_ENTITY_WITHOUT_ID)) {
                 Ok(x) => x,
                 Err(e) => {
                     // not valid GraphQL / not matching the schema: C09's property, not this one
@@ -302,6 +335,9 @@ pub fn run_program(files: &Rendered, declared: &[String], rtape: &[u16], respons
                 // recorded finding: excluded so that the search continues behind it
                 report.excluded(SIG_NESTED_LIST);
                 break;
+            }
+            if known(SIG_ENTITY_WITHOUT_ID) {
+                report.excluded(SIG_ENTITY_WITHOUT_ID);
             }
             res.reads += 1;
             let abstract_pos = stats.abstract_positions > 0 || rs.conditions > 0;
